@@ -510,7 +510,11 @@ def c18_run(ctx):
                       ("to_xyzt", {}), ("to_rhophietatau", {}), ("to_xythetat", {"t": 3.25} if dim < 4 else {}),
                       ("like", C.obj_vec("g", ("xy", "z", "t"), [1.0, 2.0, 3.0, 9.0])),
                       ("like", C.obj_vec("m", ("rhophi", "eta"), [1.0, 2.0, 0.5])), ("like", C.obj_vec("g", ("xy",), [1.0, 2.0]))]
-            for m, a in UN_VEC + [(s, []) for s in UN_SCALAR[:6]] + impute:
+            # EVERY conversion the array offers (to_xy ... to_rhophithetatau and the momentum-spelled to_pxpy ... to_ptphietaenergy), no argument:
+            # all of them in the thorough tier, a seeded dozen per layout in the quick tier
+            convs = sorted(m_ for m_ in dir(arr) if m_.startswith("to_") and m_ not in ("to_list", "to_numpy", "tolist") and not any(m_ == u for u, _ in UN_VEC))
+            convs = convs if ctx.tier == "thorough" else r.sample(convs, min(12, len(convs)))
+            for m, a in UN_VEC + [(s, []) for s in UN_SCALAR[:6]] + impute + [(m_, []) for m_ in convs]:
                 if not hasattr(arr, m):
                     continue
                 n += 1
